@@ -837,3 +837,80 @@ Qed.
 Lemma C05_example_proof :
   thread_result (crun [EInvoke 0 7; EStep 0; EDeliver true [(7, 42)] [7; 8]; EDeliver true [(8, 43)] [7; 8]; EWake 0]) 0 = Some RErr.
 Proof. vm_compute. reflexivity. Qed.
+
+(** ---- C07: linearization ---- *)
+(** the cache is changed by deliveries only *)
+Lemma cache_changes_only_by_delivery s e :
+  (forall full up scope, e <> EDeliver full up scope) -> c_cache (cstep s e) = c_cache s.
+Proof.
+  intros Hne. destruct e as [t k|t|t|t|t|t|full up scope]; cbn [cstep].
+  - destruct (kget t (c_threads s)); [reflexivity|]. destruct (kget k (c_cache s)); reflexivity.
+  - destruct (kget t (c_threads s)); reflexivity.
+  - destruct (kget t (c_threads s)) as [th|]; [|reflexivity]. destruct (th_st th); try reflexivity.
+    destruct (kget (th_key th) (c_cache s)); [reflexivity|]. destruct (kget (th_key th) (c_nmap s)); reflexivity.
+  - destruct (kget t (c_threads s)) as [th|]; [|reflexivity]. destruct (th_st th); try reflexivity.
+    destruct (nmem nid (c_closed s)); reflexivity.
+  - destruct (kget t (c_threads s)) as [th|]; [|reflexivity]. destruct (th_st th); try reflexivity.
+    destruct (th_fired th); reflexivity.
+  - destruct (kget t (c_threads s)); reflexivity.
+  - exfalso. exact (Hne full up scope eq_refl).
+Qed.
+
+(** a lookup that has returned keeps its result whatever happens later *)
+Lemma result_is_final s e t r : thread_result s t = Some r -> thread_result (cstep s e) t = Some r.
+Proof.
+  unfold thread_result. intros H.
+  destruct (kget t (c_threads s)) as [th0|] eqn:E0; [|discriminate].
+  destruct (th_st th0) eqn:Es0; try discriminate. injection H as ->.
+  assert (Hset : forall t' th', t' <> t -> kget t (kset t' th' (c_threads s)) = Some th0).
+  { intros t' th' Hne. unfold kset. cbn [kget]. destruct (N.eqb_spec t t'); [congruence|].
+    assert (G : forall (m : list (N * thread)), kget t (kdel t' m) = kget t m).
+    { induction m as [|[a b] m IH]; cbn [kdel kget]; [reflexivity|].
+      destruct (N.eqb_spec t' a) as [->|Ha]; cbn [kget]; [destruct (N.eqb_spec t a); [congruence|exact IH]|rewrite IH; reflexivity]. }
+    rewrite G. exact E0. }
+  destruct e as [t' k|t'|t'|t'|t'|t'|full up scope]; cbn [cstep].
+  - destruct (N.eq_dec t' t) as [->|Hne]; [rewrite E0, E0, Es0; reflexivity|].
+    destruct (kget t' (c_threads s)); [rewrite E0, Es0; reflexivity|].
+    destruct (kget k (c_cache s)); unfold finish, set_thread; cbn [c_threads]; rewrite (Hset _ _ Hne), Es0; reflexivity.
+  - destruct (N.eq_dec t' t) as [->|Hne]; [rewrite E0, E0, Es0; reflexivity|].
+    destruct (kget t' (c_threads s)); [rewrite E0, Es0; reflexivity|].
+    unfold set_thread; cbn [c_threads]; rewrite (Hset _ _ Hne), Es0; reflexivity.
+  - destruct (N.eq_dec t' t) as [->|Hne]; [rewrite E0, Es0, E0, Es0; reflexivity|].
+    destruct (kget t' (c_threads s)) as [th|]; [|rewrite E0, Es0; reflexivity].
+    destruct (th_st th); try (rewrite E0, Es0; reflexivity).
+    destruct (kget (th_key th) (c_cache s)); [unfold finish, set_thread; cbn [c_threads]; rewrite (Hset _ _ Hne), Es0; reflexivity|].
+    destruct (kget (th_key th) (c_nmap s)); cbn [c_threads]; rewrite (Hset _ _ Hne), Es0; reflexivity.
+  - destruct (N.eq_dec t' t) as [->|Hne]; [rewrite E0, Es0, E0, Es0; reflexivity|].
+    destruct (kget t' (c_threads s)) as [th|]; [|rewrite E0, Es0; reflexivity].
+    destruct (th_st th); try (rewrite E0, Es0; reflexivity).
+    destruct (nmem nid (c_closed s)); [|rewrite E0, Es0; reflexivity].
+    unfold finish, set_thread; cbn [c_threads]; rewrite (Hset _ _ Hne), Es0; reflexivity.
+  - destruct (N.eq_dec t' t) as [->|Hne]; [rewrite E0, Es0, E0, Es0; reflexivity|].
+    destruct (kget t' (c_threads s)) as [th|]; [|rewrite E0, Es0; reflexivity].
+    destruct (th_st th); try (rewrite E0, Es0; reflexivity).
+    destruct (th_fired th); [|rewrite E0, Es0; reflexivity].
+    unfold finish, set_thread; cbn [c_threads]; rewrite (Hset _ _ Hne), Es0; reflexivity.
+  - destruct (N.eq_dec t' t) as [->|Hne].
+    + rewrite E0. unfold set_thread. cbn [c_threads kset kget]. rewrite N.eqb_refl. cbn [th_st]. rewrite Es0. reflexivity.
+    + destruct (kget t' (c_threads s)) as [th|]; [|rewrite E0, Es0; reflexivity].
+      unfold set_thread; cbn [c_threads]; rewrite (Hset _ _ Hne), Es0; reflexivity.
+  - cbn [c_threads]. rewrite E0, Es0. reflexivity.
+Qed.
+
+(** linearization point: along ANY schedule, the event at which a lookup returns reads the cache as it is at that
+    very event (between the lookup's invocation and its return), or is the lookup's own deadline / an unknown kind *)
+Lemma linearization_point h e t r :
+  thread_result (crun h) t = None -> thread_result (crun (h ++ [e])) t = Some r ->
+  exists th, kget t (c_threads (crun (h ++ [e]))) = Some th /\
+    match r with
+    | RVal v => kget (th_key th) (c_cache (crun h)) = Some v
+    | RErr => kget (th_key th) (c_cache (crun h)) = None \/ (exists k, e = EInvokeBad t /\ k = 0) \/ (e = ETimeout t)
+    | _ => False
+    end.
+Proof. rewrite crun_snoc. apply step_reads_current. Qed.
+
+Lemma result_is_final_run h h' t r : thread_result (crun h) t = Some r -> thread_result (crun (h ++ h')) t = Some r.
+Proof.
+  revert h. induction h' as [|e h' IH]; intros h H; [rewrite app_nil_r; exact H|].
+  change (e :: h') with ([e] ++ h'). rewrite app_assoc. apply IH. rewrite crun_snoc. apply result_is_final. exact H.
+Qed.
